@@ -211,8 +211,18 @@ def main(argv=None):
         'seed': seed,
         'level': getattr(contracts, 'LEVELS', {}).get(pid, 'proof'),
         'coverage': {
-            'obligations': n_total,
+            # a refuted obligation that is a listed known finding is reported on its own (KNOWN-FINDING line, key below) and
+            # is not part of the obligations this run claims to have discharged
+            'obligations': n_total - len(known_hits),
             'discharged': len(proved),
+            'known_finding_obligations': [o['name'] for (o, _kf) in known_hits],
+            # exploration-style counts (one case = one feasible path of the symbolic execution of the real function under
+            # its setup, i.e. one distinct sequence of branch / choice decisions)
+            'evaluations': paths,
+            'distinct_nontrivial': sum(max([o.get('paths', 0) for o in r['obligations']] or [0]) for r in results),
+            'rule': 'one case = one feasible path (distinct sequence of branch / choice decisions) of the symbolic execution of a real '
+                    'function under its contract set-up; counted as non-trivial when it reached at least one proof obligation '
+                    '(per unit: the largest number of paths on which one obligation was checked)',
             'checker_cmd': 'python3-vt -m pyvc.check %s --tier %s' % (pid, tier),
             'trusted_base': TRUSTED_BASE,
             'samples': samples,
